@@ -33,6 +33,7 @@ struct sim_cfg {
 	long diskfull_from;        /* -1 none */
 	uint64_t shortw_seed;      /* 0 none */
 	int shortw_pct;
+	long sibling_rmdir_nth;    /* the n-th directory creation finds its (empty) parent removed by another process */
 	int close_eintr_pct;       /* close(2) releases the descriptor and reports EINTR (Linux semantics) this often */
 	uint64_t readdir_seed;     /* 0: natural order, 1: sorted, 2: reverse sorted, else shuffled */
 };
